@@ -43,6 +43,11 @@ type MergeCase struct {
 	// Nest > 0: the first Nest children sit behind a merge handler of their own,
 	// which is the first child of the outer one (merges compose)
 	Nest int `json:"nest,omitempty"`
+	// Prelude (with a slow child): before the judged session another client
+	// connects to the same MergeHandler value, submits the script's first EVENT
+	// and COUNT and is cancelled while the slow child has not answered yet
+	// (sessions of one handler value must not inherit anything from one another)
+	Prelude bool `json:"prelude,omitempty"`
 	Sched    simrt.Schedule `json:"sched"`
 }
 
@@ -258,6 +263,7 @@ func (mergeEngine) Gen(t *rapid.T, tier string) any {
 		}
 		c.Children[li].Lag = rapid.SampledFrom([]int{20, 400}).Draw(t, "lag")
 	}
+	c.Prelude = rapid.IntRange(0, 2).Draw(t, "prelude") == 0
 	if wide == 0 && nch >= 3 && rapid.IntRange(0, 2).Draw(t, "nested") == 0 {
 		c.Nest = rapid.IntRange(2, nch-1).Draw(t, "nest")
 	}
@@ -373,6 +379,10 @@ func (s *mStub) emit(ctx context.Context, send chan<- mocrelay.ServerMsg, r *mRe
 
 func (s *mStub) ServeNostr(ctx context.Context, send chan<- mocrelay.ServerMsg, recv <-chan mocrelay.ClientMsg) error {
 	verifsim.NameMe(fmt.Sprintf("child%d", s.idx))
+	// sessions follow one another (prelude, then the judged one): per-session
+	// records start empty
+	s.recs, s.byMsg, s.gotClose = nil, map[mocrelay.ServerMsg]*mRec{}, map[string][]int64{}
+	s.nReq, s.nEv, s.nCnt = 0, 0, 0
 	if s.plan.Style == "seq" {
 		for {
 			verifsim.Yield(fmt.Sprintf("child%d.recv", s.idx))
@@ -468,6 +478,31 @@ func (mergeEngine) Exec(t *testing.T, cc any) *simrt.Result {
 						m.EvObj = evs[j]
 					}
 				}
+			}
+		}
+		if c.Prelude {
+			lag := 0
+			for i := range c.Children {
+				lag = max(lag, c.Children[i].Lag)
+			}
+			var pre []simrt.Op
+			seenEv, seenCnt := false, false
+			for i := range c.Script {
+				if m := c.Script[i].Msg; m != nil && (m.T == "EVENT" && !seenEv || m.T == "COUNT" && !seenCnt) {
+					pre = append(pre, c.Script[i])
+					seenEv, seenCnt = seenEv || m.T == "EVENT", seenCnt || m.T == "COUNT"
+				}
+			}
+			if lag > 0 && len(pre) > 0 {
+				st.Fault("session-cut-with-requests-half-answered")
+				pc := sim.NewClient(context.Background(), "pre", pre)
+				pc.Serve(h)
+				sim.Drive() // the slow child sleeps on simulated time: its answers are outstanding
+				pc.Cancel()
+				sim.Drive()
+				sim.Advance(time.Duration(2*lag) * time.Millisecond)
+				pc.Stop()
+				sim.Drive()
 			}
 		}
 		cl := sim.NewClient(context.Background(), "cl", c.Script)
